@@ -299,7 +299,7 @@ func (ex *Exec) exploreAll(s0 *State) {
 		wl = append(wl[:bi], wl[bi+1:]...)
 		if !ex.NoMerge {
 			for i := 0; i < len(wl); {
-				if s.Steps > s.Barrier && wl[i].Steps > wl[i].Barrier && samePos(s, wl[i]) && ex.cmpStates(s, wl[i]) == 0 {
+				if s.Steps > s.Barrier && wl[i].Steps > wl[i].Barrier && s.Choice == wl[i].Choice && samePos(s, wl[i]) && ex.cmpStates(s, wl[i]) == 0 {
 					if ex.mergeInto(s, wl[i]) {
 						ex.Merges++
 						wl = append(wl[:i], wl[i+1:]...)
